@@ -23,7 +23,7 @@ ITEMS = ["WSMsgType opcodes", "WSCloseCode members / ALLOWED_CLOSE_CODES shape",
          "MAX_PAYLOAD_LEN", "_max_fragments formula", "reserved-bits test", "opcode set", "fragmented-control test",
          "control-length test", "control rsv1 test", "continuation rsv1 test", "64-bit length cap test",
          "pre-buffering size test", "inflate cap expression", "post-inflate size test", "close-code test",
-         "check order in READ_HEADER", "had_fragments shape", "feed_data latch shape"]
+         "check order in READ_HEADER", "had_fragments shape", "feed_data latch shape", "WebSocketDataQueue read order / FIFO shapes"]
 
 READER = "aiohttp/_websocket/reader_py.py"
 MODELS = "aiohttp/_websocket/models.py"
@@ -436,6 +436,52 @@ def feed_data(self, data):
     if strip(fdd) != strip(exp):
         raise TranslatorError("WebSocketReader.feed_data no longer has the latch shape the model transcribes "
                               "(return (True, data) once _exc is set; any Exception from _feed_data is stored and set on the queue)")
+    # ---- WebSocketDataQueue: read order (buffer before exception), put order -----------------------
+    def strip_fn(fn):
+        fn = ast.parse(ast.unparse(fn)).body[0]
+        fn.returns = None
+        for a in fn.args.args:
+            a.annotation = None
+        fn.body = [st for st in fn.body if not (isinstance(st, ast.Expr) and isinstance(st.value, ast.Constant))]
+        return ast.dump(fn)
+    rfb = core.find_function(READER, "_read_from_buffer", cls="WebSocketDataQueue")
+    exp_rfb = ast.parse('''
+def _read_from_buffer(self):
+    if self._buffer:
+        data = self._get_buffer()
+        size = data.size
+        self._size -= size
+        if self._size < self._limit and self._protocol._reading_paused:
+            self._protocol.resume_reading()
+        return data
+    if self._exception is not None:
+        raise self._exception
+    raise EofStream
+''').body[0]
+    if strip_fn(rfb) != strip_fn(exp_rfb):
+        raise TranslatorError("WebSocketDataQueue._read_from_buffer no longer has the shape the queue model transcribes "
+                              "(buffered messages are handed out first, the stored exception only once the buffer is empty)")
+    qfd = core.find_function(READER, "feed_data", cls="WebSocketDataQueue")
+    exp_qfd = ast.parse('''
+def feed_data(self, data):
+    size = data.size
+    self._size += size
+    self._put_buffer(data)
+    self._release_waiter()
+    if self._size > self._limit and not self._protocol._reading_paused:
+        self._protocol.pause_reading()
+''').body[0]
+    if strip_fn(qfd) != strip_fn(exp_qfd):
+        raise TranslatorError("WebSocketDataQueue.feed_data no longer appends to the buffer in the transcribed shape")
+    qse = core.find_function(READER, "set_exception", cls="WebSocketDataQueue")
+    if [ast.unparse(st) for st in qse.body[:2]] != ["self._eof = True", "self._exception = exc"]:
+        raise TranslatorError("WebSocketDataQueue.set_exception must store the exception without touching the buffer")
+    for nm, want in (("_get_buffer", "self._buffer.popleft"), ("_put_buffer", "self._buffer.append")):
+        v = core.find_assign(READER, nm, cls="WebSocketDataQueue", func="__init__")
+        if ast.unparse(v) != want:
+            raise TranslatorError(f"WebSocketDataQueue.{nm} is not {want} (FIFO order)")
+    out.append("\n(* WebSocketDataQueue shapes checked: FIFO append/popleft; _read_from_buffer hands out buffered messages before the stored exception *)")
+    out.append("Definition queue_buffer_before_exception : bool := true.")
     out.append("\n(* feed_data latch shape checked: `if self._exc is not None: return True, data` / except Exception: self._exc = exc *)")
     out.append("Definition feed_data_latches : bool := true.")
     return "\n".join(out) + "\n"
